@@ -3947,7 +3947,8 @@ class NetCDFRead(IORead):
                     ugrid = False
                     logger.warning(
                         "There was a problem parsing the UGRID mesh "
-                        f"topology variable {mesh.mesh_ncvar!r}: "
+                        "topology variable "
+                        f"{mesh_ncvar or location_index_set_ncvar!r}: "
                         f"Ignoring the UGRID mesh for {field_ncvar!r}."
                     )
 
@@ -3974,12 +3975,25 @@ class NetCDFRead(IORead):
 
                 # Find the discrete axis for the mesh topology
                 ugrid_ncdim = mesh.ncdim.get(location)
-                if ugrid_ncdim is None:
-                    # We couldn't find the UGRID discrete axis, so
-                    # there must be something wrong with the UGRID
+                if ugrid_ncdim not in ncdim_to_axis:
+                    # We couldn't find the UGRID discrete axis, or it
+                    # is not a dimension of this variable, so there
+                    # must be something wrong with the UGRID
                     # encoding. Set 'ugrid' to False so that no
                     # further UGRID related stuff occurs.
                     ugrid = False
+                    self._add_message(
+                        field_ncvar,
+                        mesh.mesh_ncvar,
+                        message=(
+                            "UGRID discrete axis",
+                            "is not spanned by the variable",
+                        ),
+                        attribute={
+                            f"{field_ncvar}:mesh": mesh.mesh_ncvar,
+                            f"{field_ncvar}:location": location,
+                        },
+                    )
                     logger.warning(
                         "Couldn't find the UGRID discrete axis for mesh "
                         f"topology variable {mesh.mesh_ncvar!r}: "
